@@ -7,7 +7,7 @@ RULE = ('post stage: resolve_displaced_content / post_process of the implementat
         'AKN-shaped trees with repeated, missing, surplus, nested and out-of-order footnote references and blocks, text and tails '
         'everywhere (also trees the parser never produces); e2e stage on generated documents with footnotes. Oracle on the '
         'implementation: no displaced element/attribute survives, every note has content or the placeholder, reference count kept, '
-        'surplus blocks stay as "FOOTNOTE m" + content, every word of every block appears exactly once. non-trivial = document/tree '
+        'surplus blocks stay as "FOOTNOTE m" + content, every word of every block appears exactly once; the tree the builder hands to footnote resolution has the shape the conservation theorem assumes (wfDx). non-trivial = document/tree '
         'with at least one reference and one block; distinct by input.')
 TRUSTED_BASE = [
     'Coq 8.16.1 kernel; no axioms',
@@ -15,8 +15,9 @@ TRUSTED_BASE = [
     'translators: gen_grammar.py, gen_tables_types.py, gen_tables_xml.py, gen_tables_libs.py (lxml/cobalt behaviour tabulated)',
     'extraction (ExtrOcamlBasic) + ocaml/driver.ml; Python oracle',
 ]
-ASSUMPTIONS = ['the matching rule (nearest enclosing element, document order, used once) is the model itself; it is tied to the code by the post stage, not proved against a separate specification',
-               '"no displaced attribute survives" is checked by the oracle and the stages, not yet a theorem']
+ASSUMPTIONS = ['the conservation theorem assumes the shape wfDx of the input tree; that the builder only produces such trees is checked on the implementation (oracle on the pre-resolution tree), not proved',
+               'the matching rule (nearest enclosing element, document order, used once) is the model itself; it is tied to the code by the post stage, not proved against a separate specification',
+               '"no displaced attribute survives" and "each block is used at most once, nearest first" are checked by the oracle and the stages, not theorems']
 
 FOOTNOTE_DOCS = [
     'a {{FOOTNOTE 1}} b {{FOOTNOTE 2}}\nFOOTNOTE 1\n  one\nFOOTNOTE 2\n  two\n',
@@ -50,9 +51,17 @@ def _oracle(args):
         p = AkomaNtosoParser(FrbrUri.parse(uri), prefix)
         tree = p.parse(text, root)
         d = tree.to_dict()
+        p.generator.ids.reset()
+        pre = p.generator.xml_from_tree(d)
         xml = p.generator.xml_from_dict(d, True)
     except Exception as e:
         return ('raised', impl.exc_kind(e))
+    # the shape the conservation theorem (C14_no_content_vanishes) assumes of the tree the builder hands to footnote resolution:
+    # a <displaced> block holds elements only, carries no displaced attribute and has no tail text
+    nsd = '{%s}displaced' % xmlsx.NS
+    for b in pre.iter(nsd):
+        if (b.text or '') or (b.tail or '') or 'displaced' in b.attrib or any((c.tail or '') or not isinstance(c.tag, str) for c in b):
+            return ('bad', 'the tree handed to footnote resolution is not of the shape the conservation theorem assumes (wfDx): a displaced block with text, a tail or a displaced attribute', 0, 0)
     js = json.dumps(d)
     R, B = js.count('"displaced": "footnote"'), js.count('"name": "displaced"')
     ns = '{%s}' % xmlsx.NS
@@ -137,8 +146,21 @@ def _pair_oracle(args):
             return ('bad', 'the unreferenced block of section %d did not stay in place' % (si + 1), text)
     return ('ok', None, text)
 
+# minimal trees: as deep as they are large, so that every placeholder and every move makes the tree deeper than its original size
+CORNER_TREES = [
+    '<p xmlns="%s"><authorialNote displaced="footnote" marker="1"/></p>',
+    '<a xmlns="%s"><b><c><authorialNote displaced="footnote" marker="1"/></c></b></a>',
+    '<a xmlns="%s"><b><authorialNote displaced="footnote" marker="1"/></b><displaced name="footnote" marker="1"><p><q><authorialNote displaced="footnote" marker="2"/></q></p></displaced></a>',
+    '<a xmlns="%s"><displaced name="footnote" marker="1"><displaced name="footnote" marker="2"><p>x</p></displaced></displaced></a>',
+    '<a xmlns="%s"><n displaced="footnote" marker="1"><n displaced="footnote" marker="1"><n displaced="footnote" marker="1"/></n></n></a>',
+]
+
+def corner_cases():
+    from lxml import etree
+    return [('displaced', '', xmlsx.norm_sx(xmlsx.to_sx(etree.fromstring(t % xmlsx.NS)))) for t in CORNER_TREES]
+
 def correspondence(ctx):
-    stages.stage_post(ctx, stages.post_cases(ctx, ctx.n(3000, 100000), steps=('displaced', 'displaced', 'all')))
+    stages.stage_post(ctx, stages.post_cases(ctx, ctx.n(3000, 100000), steps=('displaced', 'displaced', 'all')) + corner_cases())
     cs = []
     for _ in range(ctx.n(500, 30000)):
         root = ctx.rng.choice(gen.ROOTS7)
@@ -188,9 +210,14 @@ def replay(obj):
     return 0 if ok else 1
 
 LEVEL_TEXT = ('Proof over the Gallina model of resolve_displaced_content, for every XML tree: if it returns, no displaced placeholder element is left '
-              '(C14_no_displaced_element_survives). The rest of the property (matching rule, one note per reference, placeholder, surplus blocks '
+              '(C14_no_displaced_element_survives); and no content vanishes: for every tree of the shape the builder produces (a displaced block '
+              'holds elements only, has no displaced attribute and no tail text) the elements of the result - tag, attributes apart from the '
+              'internal one, direct text - are, as a multiset, the elements of the input with every unused block turned into its "FOOTNOTE m" '
+              'paragraph, minus the used blocks (whose children all stay, inside the note), plus one "(content missing)" paragraph per reference '
+              'without a block (C14_no_content_vanishes; 1000 lines: unique ids, the reference stays reachable after the block is taken out, the '
+              'fuel of every traversal suffices). The rest of the property (matching rule, one note per reference, placeholder, surplus blocks '
               'kept, attribute removed) is the executable model itself, tied to xml.py by the post stage on random trees with repeated/missing/'
               'surplus/nested/out-of-order markers (including trees outside the parser image) and by the e2e stage, and checked on the '
               'implementation by the footnote oracle. Partial: those clauses are not yet theorems against an independent specification.')
 LEVEL_NOTE = 'Trusted: Coq kernel; hand model Post.v (lxml text/tail rule) tied by sampling; translators; extraction+driver. A self-referencing footnote aborted the conversion on the original tree (fixed: commit 768854b).'
-TECHNIQUE = 'Rocq proof (induction over the id-annotated tree) + differential run of the extracted post-processing model + footnote oracle'
+TECHNIQUE = 'Rocq proof (induction over the id-annotated tree; multiset conservation through remove/move/splice with unique ids) + differential run of the extracted post-processing model + footnote oracle'
